@@ -66,7 +66,13 @@ func verifStub_ParseCertificate(der []byte) (*x509.Certificate, error) {
 	if isCA {
 		c19Cur.anyCA = true
 	}
-	return &x509.Certificate{IsCA: isCA}, nil
+	// key usage is independent of the CA flag: an end-entity certificate may carry keyCertSign, that does not
+	// make it a CA (Go's verifier only accepts issuers whose basic constraints say CA)
+	cert := &x509.Certificate{IsCA: isCA, BasicConstraintsValid: true}
+	if verifNondetBool("cert.KeyUsageCertSign") {
+		cert.KeyUsage = x509.KeyUsageCertSign
+	}
+	return cert, nil
 }
 
 func verifStub_NewCertPool() *x509.CertPool { return &x509.CertPool{} }
